@@ -27,8 +27,12 @@ ASSUMPTIONS = [
     'dedicated recognisers stage_match / var_search / index_search of coq/Ref/Model.v, validated against re by the '
     'correspondence run on every enumerated string',
     'known component names contain no "/" (C09_expand_idempotent hypothesis; FlowIR validation rejects such names)',
-    'the theorems describe well-formed references as the image of the printer on parts satisfying wf_parts '
-    '(generator-style grammar); strings outside that image are covered by the correspondence and the predicates only',
+    'well-formed references are the image of the printer on parts satisfying wf_parts; the same set is recognised on strings '
+    'by wf_string (proved equivalent, and proved to be exactly the strings with print(parse s) = s); the run compares wf_string '
+    'with the implementation (print(parse r) == r) and with a recogniser written with re on every enumerated, random and '
+    'malformed string',
+    'nf_guard (the accepted strings on which parse(print(parse s)) = parse s is proved) is compared with an re-based oracle of '
+    'this file and the fixed-point claim is evaluated on the implementation for every string',
 ]
 
 METHODS = ['copy', 'link', 'ref', 'copyout', 'extract', 'output', 'loopref', 'loopoutput']
@@ -90,6 +94,31 @@ def enumerate_refs(tier, rng):
         ci = k % nctx
         for m in METHODS + BAD_METHODS + [None]:
             add(ci, build(pre, prod, path, m))
+    # absolute paths: directory part empty / root / doubled and trailing separators (F9a boundary, exact guard)
+    for k, (a, m) in enumerate(itertools.product(ABS_PATHS, ['ref', 'copy', 'loopref'])):
+        add(k % nctx, a + ':' + m)
+    # malformed stream: one to three random edits of strings of the grammar (accept/reject boundary of the recogniser)
+    edits = [':', '/', '.', '%', '(', ')', 's', '0', '1', 'x', '#', '[', ']', ' ', 'stage', '//', '..', ')s', '%(']
+    n_mal = 2000 if tier == 'quick' else 16000
+    for _ in range(n_mal):
+        base = build(rng.choice(PREFIXES), rng.choice(PRODUCERS + ['/abs/dir.d', '/a/b', 'stage3.A', '7#gen_2']),
+                     rng.choice(PATHS), rng.choice(METHODS))
+        cs = list(base)
+        for _k in range(rng.randint(1, 3)):
+            op = rng.randrange(4)
+            i = rng.randrange(len(cs) + 1)
+            if op == 0 or not cs:
+                cs.insert(i, rng.choice(edits))
+            elif op == 1:
+                del cs[min(i, len(cs) - 1)]
+            elif op == 2:
+                j = min(i, len(cs) - 1)
+                cs.insert(j, cs[j])
+            else:
+                j = min(i, len(cs) - 1)
+                k2 = rng.randrange(len(cs))
+                cs[j], cs[k2] = cs[k2], cs[j]
+        add(rng.randrange(nctx), ''.join(cs))
     # character soups around the recognisers (colon/slash/dot/stage/variable syntax)
     alphabet = ['s', 't', 'a', 'g', 'e', 'stage', '0', '1', '7', '.', '/', ':', '%(', ')s', '(', ')', '%', '[', ']', 'x', '-',
                 '_', 'data', 'foo', 'A', ':ref', '#', '&']
@@ -103,6 +132,11 @@ def enumerate_refs(tier, rng):
     return out
 
 
+ABS_PATHS = ['/a/b/f', '//a/f', '/a//f', '/a/b//', '/a/b/', '/a', '//a', '//', '/', '/a//', '///x', '/a/b//f', '/a.b/c.d/e.f',
+             '/stage1.x/y', '/data/x', '/%(v)s/x', '/a/b/c/d/e.txt', '/a/', '/a_s//', '/opt//data.d/sub/f.txt', '/x/stage1.A']
+
+# Fixed corpus, enumerated FIRST and independent of VERIF_SEED: one witness per OPEN finding (F9a, F9b, F9d, F9e), so that each
+# KNOWN-FINDING line is printed on every run, plus the witness of the repaired defect F9c and the boundary cases of the guards.
 CORPUS = [
     (2, 'foo/bar/f.txt:ref'),      # F9c (fixed): nested manifest key
     (2, 'foo/f.txt:ref'), (2, 'foo:ref'), (3, 'foo/bar/baz/q:copy'), (5, 'bar/foo/x:ref'),
@@ -110,6 +144,9 @@ CORPUS = [
     (0, 'stage1x.foo:ref'),        # F9b
     (0, 'stage01.A:ref'),          # F9d
     (0, 'stage1.%(v)s:ref'),       # F9e
+    (0, 'stage1.stage2.%(v)s:ref'),  # F9e: not a fixed point of parse-then-print
+    (1, '/a_s//:loopref'), (1, '//file:ref'), (3, '/a/b/f:ref'), (4, '/a//b/f:copy'),   # F9a boundary, exact guard
+    (0, 'stage0.3#loop/out:ref'), (0, '3#loop/out:ref'),   # DoWhile iteration names
 ]
 
 
@@ -143,6 +180,48 @@ def shape(r):
     return refpart, method, seg, None, seg
 
 
+_STAGE_RE = re.compile(r'stage([0-9]+)')       # the regular expression of ParseProducerReference (used with re.match)
+
+
+def _stage_prefix(seg):
+    """(text before the first dot, its re.match with the stage expression, text after the first dot) or None"""
+    if '.' not in seg:
+        return None
+    st, job = seg.split('.', 1)
+    m = _STAGE_RE.match(st)
+    return (st, m, job) if m else None
+
+
+def py_wf_string(r):
+    """recogniser of canonical reference strings written with re (mirror of Ref.Model.wf_string)"""
+    if r.count(':') != 1:
+        return False
+    a = r.split(':')[0]
+    if a.startswith('/'):
+        return re.match(r'^/.*[^/]/[^/]*$', a, re.S) is not None
+    seg = a.split('/', 1)[0]
+    if '/' in a and seg in SPECIAL:
+        return True
+    sp = _stage_prefix(seg)
+    if sp is None:
+        return True
+    st, m, job = sp
+    return re.match(r'^stage(0|[1-9][0-9]*)$', st) is not None and not _VAR.search(job)
+
+
+def py_nf_guard(r):
+    """mirror of Ref.Model.nf_guard: accepted strings for which parse(print(parse r)) == parse(r) is proved"""
+    if r.count(':') != 1:
+        return True
+    a = r.split(':')[0]
+    if a.startswith('/'):
+        return re.match(r'^/+[^/]*$', a) is None
+    sp = _stage_prefix(a.split('/', 1)[0])
+    if sp is None:
+        return True
+    return not (_VAR.search(sp[2]) and _stage_prefix(sp[2]) is not None)
+
+
 def finding_classes(r):
     """classes of the open findings a reference string belongs to (predicates on the INPUT only)"""
     cl = []
@@ -150,9 +229,10 @@ def finding_classes(r):
         return cl
     refpart = r.split(':')[0]
     seg = refpart.split('/', 1)[0]
-    # F9a: absolute paths go through os.path.split / os.path.join: a path whose directory part is only slashes
-    # ("/file") or that holds a doubled separator ("/a//", "/a//b") is not printed back as written
-    if re.match(r'^/+[^/]*$', refpart) or (refpart.startswith('/') and '//' in refpart):
+    # F9a: absolute paths go through os.path.split / os.path.join: a path whose directory part is empty ("/file") or
+    # ends with a separator ("//file", "/a//", "/a//f") is not printed back as written.  This is the exact complement
+    # of the proved guard of wf_abs: a doubled separator INSIDE the directory part ("/a//b/f") round-trips.
+    if refpart.startswith('/') and re.match(r'^(.*/)?/[^/]*$', refpart, re.S):
         cl.append('absolute_path_directly_under_root')
     if not refpart.startswith('/') and '.' in refpart:
         before_dot = refpart.split('.', 1)[0]
@@ -226,8 +306,23 @@ class Impl(object):
             o.append(_call(mk))
         return o
 
+    def observe2(self, ci, r, o):
+        """[print(parse r) == r, guard oracle, parse(print(parse r)) == parse r without / with the context]"""
+        FI = self.FI
+        cx = CONTEXTS[ci]
+        out = [isinstance(o[2], list) and o[3] == r, py_nf_guard(r)]
+        for args in ((None,), (cx['stage'], cx['appdeps'], self.tlf[ci])):
+            p = _call(FI.ParseDataReferenceFull, r, *args)
+            if not isinstance(p, tuple):
+                out.append(p)
+                continue
+            back = _call(FI.compile_reference, p[1], p[2], p[3], p[0])
+            p2 = _call(FI.ParseDataReferenceFull, back, *args) if isinstance(back, str) and not back.startswith('EXC:') else back
+            out.append(isinstance(p2, tuple) and list(p2) == list(p))
+        return out
 
-def _predicates(ctx, impl, ci, r, o):
+
+def _predicates(ctx, impl, ci, r, o, o2):
     """the property as stated, evaluated on the implementation's outputs"""
     cx = CONTEXTS[ci]
     if r.count(':') != 1:
@@ -243,6 +338,14 @@ def _predicates(ctx, impl, ci, r, o):
     # ---- round trip: print (parse r) == r, for the context-free and the contextual parser
     if o[3] != r:
         ctx.fail(dict(case, parsed=o[2], printed=o[3]), 'printing the parsed parts does not give back the reference', cls)
+    # ---- the recogniser of canonical strings accepts exactly the strings that round-trip (C09_wf_string_iff_roundtrip)
+    if py_wf_string(r) != (o[3] == r):
+        ctx.fail(dict(case, recognised=py_wf_string(r), printed=o[3]),
+                 'the recogniser of canonical reference strings and print(parse r) == r disagree', [])
+    # ---- normal form: the parsed parts are a fixed point of print-then-parse (C09_normal_form), outside nf_guard's classes
+    if o2[2] is not True or o2[3] is not True:
+        ctx.fail(dict(case, parsed=o[2], printed=o[3], fixed_point=o2[2:]),
+                 'parsing the printed parse does not give back the parsed parts', [] if py_nf_guard(r) else cls)
     # ---- idempotent expansion
     if o[7] != o[6]:
         ctx.fail(dict(case, once=o[6], twice=o[7]), 'expanding a reference to its absolute form is not idempotent', [])
@@ -301,7 +404,8 @@ def _explore(ctx, pairs, impl=None):
     terms = []
     for ci, r in pairs:
         o = impl.observe(ci, r)
-        _predicates(ctx, impl, ci, r, o)
+        o2 = impl.observe2(ci, r, o)
+        _predicates(ctx, impl, ci, r, o, o2)
         parses = isinstance(o[0], list)
         refpart = r.split(':')[0]
         ctx.case([ci, r], parses and any(c in refpart for c in '/.%#'))
@@ -314,17 +418,23 @@ def _explore(ctx, pairs, impl=None):
                 ctx.count('expanded')
             if finding_classes(r):
                 ctx.count('in_a_finding_class')
+            ctx.count('recognised_canonical' if o2[0] else 'accepted_not_canonical')
+            if refpart.startswith('/'):
+                ctx.count('absolute_path_canonical' if o2[0] else 'absolute_path_not_canonical')
+            if not o2[1]:
+                ctx.count('outside_nf_guard')
         if len(ctx.samples) < 6 and parses and '/' in refpart and (ci + len(r)) % 7 == 0:
             ctx.sample({'context': CONTEXTS[ci], 'reference': r, 'ParseDataReferenceFull': o[4], 'expanded': o[6],
                         'is_component': o[11], 'DataReference.absolute': o[12][0] if isinstance(o[12], list) else o[12]})
-        terms.append('(%s, %s, %s)' % (cnat(ci), cstr(r), cjv(o)))
-    bad = ctx.model_mismatches(HEADER(), terms, '(check_case ctxs)', chunk=400, name='refs')
+        terms.append('(%s, %s, %s, %s)' % (cnat(ci), cstr(r), cjv(o), cjv(o2)))
+    bad = ctx.model_mismatches(HEADER(), terms, '(check_case2 ctxs)', chunk=400, name='refs')
     for k, i in enumerate(bad):
         ci, r = pairs[i]
-        model = ctx.model_eval(HEADER(), 'match nth_error ctxs %s with Some c => observe c %s | None => JNull end'
-                               % (cnat(ci), cstr(r)))[:1500] if k < 3 else ''
-        ctx.disagree({'ctx': ci, 'ref': r}, impl.observe(ci, r), model,
-                     'C09 reference functions vs Ref.Model.observe (slot order: see Model.v)')
+        model = ctx.model_eval(HEADER(), 'match nth_error ctxs %s with Some c => JList [observe c %s; observe2 c %s] | None => JNull end'
+                               % (cnat(ci), cstr(r), cstr(r)))[:1800] if k < 3 else ''
+        o = impl.observe(ci, r)
+        ctx.disagree({'ctx': ci, 'ref': r}, [o, impl.observe2(ci, r, o)], model,
+                     'C09 reference functions vs Ref.Model.observe / observe2 (slot order: see Model.v)')
     return impl
 
 
@@ -399,7 +509,8 @@ def run(ctx):
     ctx.rule = ('reference strings = stage prefix (none, stage0., stage1., stage12., stage1x., stage01., stage.) x 25 producer '
                 'names (dots, dashes, digits, loop prefix, special folders, manifest/app-dep folder names, variables, index, '
                 'absolute paths) x 7 file paths (0-3 segments, glob, variable, empty) x methods (8 real, 3 malformed, none), '
-                'plus random token soups, under 6 contexts (owner stage, known components, application dependencies, '
+                'plus absolute paths with empty / doubled / trailing separators, a malformed stream (1-3 random edits of '
+                'grammar strings) and random token soups, under 6 contexts (owner stage, known components, application dependencies, '
                 'manifest keys incl. nested); non-trivial = accepted by the parser and holding at least one of / . % # '
                 'before the colon; distinct by (context, string)')
     pairs = enumerate_refs(ctx.tier, ctx.rng)
